@@ -56,7 +56,6 @@ theorem roundtrip (H : Bytes → Bytes) (hH : ∀ x, (H x).length = 64)
   · obtain ⟨a, cks, hinit, hd, hs⟩ := hc
     have := clone_complete_nojunk H hH decomp [] archive opts prior seeds a src cks hinit hd hs
       (by intro pin hp; rw [hpin] at hp; cases hp) (by intro h; rw [hdev] at h; cases h)
-      (by intro h; rw [hdev] at h; cases h)
     rcases this with ⟨hok, _, hout⟩ | hcoll
     · exact Or.inl ⟨hok, hout hdev⟩
     · exact Or.inr (Or.inr ⟨a, cks, hcoll, hd.tiles⟩)
@@ -127,7 +126,7 @@ theorem roundtrip_over_http (H : Bytes → Bytes) (hH : ∀ x, (H x).length = 64
     refine Or.inl ⟨a, hinit, fun hlen => ?_⟩
     have := clone_http_complete_budget H hH decomp [] _ e opts prior seeds a src cks hserve hat hinit hd hs
       (by intro pin hp; rw [hpin] at hp; cases hp) (by intro h; rw [hdev] at h; cases h)
-      (by intro h; rw [hdev] at h; cases h) hbad hnoend hlen
+      hbad hnoend hlen
     rcases this with ⟨hok, _, hout⟩ | hcoll
     · exact Or.inl ⟨hok, hout hdev⟩
     · exact Or.inr ⟨cks, hcoll, hd.tiles⟩
@@ -164,5 +163,9 @@ example :
       (Clone.run toyH (fun _ b _ => some b) [] (honestReadAt archive) (honestReadChunks archive) {} [] []).result = .ok ∧
       (Clone.run toyH (fun _ b _ => some b) [] (honestReadAt archive) (honestReadChunks archive) {} [] []).output = src) := by
   decide +kernel
+
+/-- The library writer flushes its temp file before reading it back (read from api/compress.rs on
+every run; F16 repair), as the command line writer does (`Gen.cliTempFlushedBeforeReturn`). -/
+theorem lib_temp_file_flushed_fact : Gen.libTempFlushedBeforeRewind = true := by decide
 
 end Bita.Props.C01
